@@ -302,14 +302,45 @@ theorem run_inv {s : Sys} (hi : Inv s) (ht : Tear s) (sched : List Nat) :
     | none => exact ih hi ht
     | some s' => exact ih (step_inv hi ht hs).1 (step_inv hi ht hs).2
 
+/-- The threads of the initial configuration: application thread number `t` of the list, or the
+keep-alive thread, which comes last. -/
+theorem init_get {c : Cfg} {t : Nat} {th : Thr} (h : (init c).thr[t]? = some th) :
+    (∃ p, c.threads[t]? = some p ∧ th = initThr c.closer t p) ∨
+    (∃ n, c.ka = some n ∧ t = c.threads.length ∧ th = initKa n) := by
+  simp only [init, List.getElem?_append, List.length_mapIdx, List.getElem?_mapIdx] at h
+  split at h
+  · cases hp : c.threads[t]? with
+    | none => simp [hp] at h
+    | some p => simp [hp] at h; exact Or.inl ⟨p, rfl, h.symm⟩
+  · rename_i hlt
+    cases hk : c.ka with
+    | none => simp [hk] at h
+    | some n =>
+      simp only [hk] at h
+      have : t - c.threads.length = 0 := by
+        rcases Nat.eq_zero_or_pos (t - c.threads.length) with h0 | h0
+        · exact h0
+        · rw [List.getElem?_eq_none (by simp; omega)] at h; cases h
+      rw [this] at h
+      simp at h
+      exact Or.inr ⟨n, rfl, by omega, h.symm⟩
+
+theorem initThr_results (cl : Option Nat) (i : Nat) (p : Nat × Nat) : (initThr cl i p).results = [] := by
+  simp only [initThr]; split <;> rfl
+
+theorem initThr_inLock (cl : Option Nat) (i : Nat) (p : Nat × Nat) : inLock (initThr cl i p).pc = false := by
+  simp only [initThr]; split <;> simp only [] <;> split <;> rfl
+
 theorem init_inv (c : Cfg) (hs : c.sessSeq ≤ 0xffffffff) : Inv (init c) := by
   constructor
   · intro t th hget
-    simp [init] at hget
-    obtain ⟨p, c', _, rfl⟩ := hget
-    simp only [initThr, init]
-    split <;> simp [inLock]
+    have hl : (init c).lock = none := rfl
+    rw [hl]
+    rcases init_get hget with ⟨p, _, rfl⟩ | ⟨n, _, _, rfl⟩
+    · simp [initThr_inLock]
+    · simp [initKa, inLock]
   · intro t h; simp [init] at h
+  · rfl
   · rfl
   · rfl
   · rfl
@@ -317,9 +348,71 @@ theorem init_inv (c : Cfg) (hs : c.sessSeq ≤ 0xffffffff) : Inv (init c) := by
   · intro _; exact ⟨rfl, rfl, by intro a h; simp [init, Mon.init] at h, hs⟩
   · intro t th _ h; simp [init] at h
   · intro t th hget r hr
-    simp [init] at hget
-    obtain ⟨p, c', _, rfl⟩ := hget
-    simp [initThr] at hr
+    rcases init_get hget with ⟨p, _, rfl⟩ | ⟨n, _, _, rfl⟩
+    · rw [initThr_results] at hr; cases hr
+    · simp [initKa] at hr
+
+/-- Configurations the teardown invariant covers: the stopper joins the keep-alive thread — or no
+thread closes the session —, and Close Session is issued by `close_session` only. -/
+def Cfg.Safe (c : Cfg) : Prop :=
+  (c.join = true ∨ c.closer = none) ∧ ∀ p ∈ c.threads, p.2 ≠ closeCmd
+
+theorem init_tear (c : Cfg) (hc : c.Safe) : Tear (init c) := by
+  have hpcs : ∀ (t : Nat) (th : Thr), (init c).thr[t]? = some th →
+      th.closing = false ∧ (th.pc = .idle ∨ th.pc = .done ∨ (th.pc = .await ∧ th.kind = .closer) ∨
+        (th.pc = .kaWait ∧ th.kind = .keepAlive)) := by
+    intro t th hget
+    rcases init_get hget with ⟨p, _, rfl⟩ | ⟨n, _, _, rfl⟩
+    · simp only [initThr]
+      split <;> simp only [] <;> split <;> simp
+    · simp [initKa]
+  constructor
+  · rcases hc.1 with h | h
+    · exact Or.inl h
+    · refine Or.inr ?_
+      intro t th hget
+      rcases init_get hget with ⟨p, _, rfl⟩ | ⟨n, _, _, rfl⟩
+      · simp [initThr, h]
+      · simp [initKa]
+  · intro t th hget hp
+    rcases (hpcs t th hget).2 with h | h | h | h <;> simp_all
+  · intro t th hget hp
+    rcases (hpcs t th hget).2 with h | h | h | h <;> simp_all [closerOnly]
+  · intro t th hget hp
+    rcases (hpcs t th hget).2 with h | h | h | h <;> simp_all [latePc]
+  · intro t th hget _
+    exact (hpcs t th hget).1
+  · intro t th hget hp
+    rw [(hpcs t th hget).1] at hp; cases hp
+  · intro t th hget _
+    rcases init_get hget with ⟨p, hp, rfl⟩ | ⟨n, _, _, rfl⟩
+    · have : (initThr c.closer t p).cmd = p.2 := by simp only [initThr]; split <;> rfl
+      rw [this]
+      exact hc.2 p (List.mem_of_getElem? hp)
+    · simp [initKa, closeCmd]
+  · intro t t' th th' hget hget' k k'
+    have key : ∀ (t : Nat) (th : Thr), (init c).thr[t]? = some th → th.kind = .closer → c.closer = some t := by
+      intro t th hget k
+      rcases init_get hget with ⟨p, _, rfl⟩ | ⟨n, _, _, rfl⟩
+      · simp only [initThr] at k
+        split at k
+        · assumption
+        · cases k
+      · cases k
+    have a := key t th hget k
+    have b := key t' th' hget' k'
+    rw [a] at b
+    injection b
+  · intro t th hget hp
+    have := hpcs t th hget
+    simp only [pastBarrier, this.1, Bool.false_or, Bool.or_eq_true, beq_iff_eq] at hp
+    rcases this.2 with h | h | h | h <;> simp_all
+  · intro t th hget hp
+    rw [(hpcs t th hget).1] at hp; cases hp
+  · intro h; cases h
+  · intro t th hget hp
+    rcases (hpcs t th hget).2 with h | h | h | h <;> simp_all
+  · intro h; cases h
 
 theorem mem_resultsFrom {k : Nat} {l : List Thr} {r : Res} (h : r ∈ resultsFrom k l) :
     ∃ i th cr, l[i]? = some th ∧ cr ∈ th.results ∧ r = resOf (k + i) cr := by
@@ -334,8 +427,8 @@ theorem mem_resultsFrom {k : Nat} {l : List Thr} {r : Res} (h : r ∈ resultsFro
 
 /-- The invariant implies that the specification's monitor accepts the wire log and results. -/
 theorem inv_accepts {s : Sys} (hi : Inv s) : accepts s.wireChron s.results = true := by
-  simp only [accepts, exchangesOk, seqIncreasing, Sys.wireChron, ← monOf_eq_monitor, hi.exch, hi.incr,
-    Bool.true_and]
+  simp only [accepts, exchangesOk, seqIncreasing, closeLast, Sys.wireChron, ← monOf_eq_monitor, hi.exch, hi.incr,
+    hi.after, Bool.true_and, Bool.and_true]
   simp only [ownReply, List.all_eq_true]
   intro r hr
   obtain ⟨i, th, cr, h1, h2, h3⟩ := mem_resultsFrom hr
